@@ -132,3 +132,111 @@ PROPERTY_META["C12"] = {
     "bounds": "tail length N per obligation; DNS names <= 5 chars in make; capacities 0..len+2",
     "outside": "host strings of 13..512 bytes with arbitrary structure; real IPv6 text syntax (inside libc)",
 }
+
+# --------------------------------------------------------------------------
+# C19: xcm_attr_map.c (one operation from an arbitrary map) and attr_path.c
+# --------------------------------------------------------------------------
+AMAP = {"CREATE": "create yields the empty map; the harness-built arbitrary map is a valid map",
+        "ADD": "add / add_<type> of any name, type and value: replaces, byte-exact copy, other names untouched",
+        "DEL": "del of any name", "CLONE": "clone: equal, deep, independent under mutation of the clone",
+        "EQUAL": "equal on two arbitrary maps = reference equality, symmetric, order-independent",
+        "FOREACH": "foreach visits each entry exactly once with the stored data",
+        "ADDALL": "add_all merges, source untouched, self add_all is a no-op",
+        "DESTROY": "destroy frees everything (memory-leak check)"}
+for op, d in AMAP.items():
+    ob("amap.%s" % op.lower(), "amap/amap.c", ["-DOP_" + op], ["C19"], unwind=10, flags=["--memory-leak-check"],
+       desc="xcm_attr_map: " + d + "; arbitrary map of <= 3 entries over keys {a,b,ab}, five types, bin/str values of 0..3 bytes")
+PROPERTY_META["C19"] = {
+    "assumptions": ["attribute maps: inductive step from an arbitrary well-formed map of <= 3 entries (keys a, b, ab; values <= 8 bytes), built node by node by the harness; value objects have the fixed modelled size 8",
+                    "allocation never fails; ut_strdup/ut_memdup modelled with fixed-size objects"],
+    "trusted_base": [], "bounds": "<= 3 entries, 3-key alphabet, values <= 8 bytes (bin/str 0..3)", "outside": "maps with more than 3 entries; values longer than 8 bytes"}
+for root in (1, 0):
+    rn = "root" if root else "relative"
+    SC = [("libxcm/core/attr_path.h", "ATTR_PATH_COMP_MAX", 3), ("libxcm/core/attr_path.h", "ATTR_PATH_NAME_MAX", 6), ("libxcm/core/attr_path.c", None, None)]
+    ob("apath.parse.real.n7.%s" % rn, "apath/apath.c", ["-DNSTR=7", "-DROOT=%d" % root], ["C19", "C10"], unwind=12,
+       desc="attr_path_parse on ALL byte strings of 7 characters (%s path), real table sizes: accepted <=> documented syntax, component count, no memory error, no leak" % rn)
+    ob("apath.parse.scaled.n7.%s" % rn, "apath/apath.c", ["-DNSTR=7", "-DROOT=%d" % root], ["C19", "C10"], unwind=12, scaled=SC,
+       desc="same on the scaled twin (ATTR_PATH_COMP_MAX 64->3, ATTR_PATH_NAME_MAX 255->6): the component-count and name-length limits are inside the bound (%s path)" % rn)
+    ob("apath.print.scaled.n5.%s" % rn, "apath/apath.c", ["-DNSTR=5", "-DWITH_PRINT", "-DROOT=%d" % root], ["C19"], unwind=10, scaled=SC,
+       desc="parse -> to_str -> parse round trip, attr_path_len, equal_str on all 5-character strings (%s path)" % rn)
+    ob("apath.parse.scaled.n9.%s" % rn, "apath/apath.c", ["-DNSTR=9", "-DROOT=%d" % root], ["C19", "C10"], unwind=14, tier="thorough", timeout=2400,
+       scaled=[("libxcm/core/attr_path.h", "ATTR_PATH_COMP_MAX", 4), ("libxcm/core/attr_path.h", "ATTR_PATH_NAME_MAX", 8), ("libxcm/core/attr_path.c", None, None)],
+       desc="scaled twin (COMP_MAX 4, NAME_MAX 8), all 9-character strings (%s path)" % rn)
+    ob("apath.print.scaled.n7.%s" % rn, "apath/apath.c", ["-DNSTR=7", "-DWITH_PRINT", "-DROOT=%d" % root], ["C19"], unwind=12, scaled=SC, tier="thorough", timeout=2400, mem_gb=30,
+       desc="round trip on all 7-character strings (%s path)" % rn)
+
+# --------------------------------------------------------------------------
+# C10: framework half (xcm.c + attr_tree.c + attr_node.c + attr_path.c over worst-case mock getters/setters)
+# --------------------------------------------------------------------------
+TYPES = ["bool", "int64", "double", "str", "bin"]
+for t in TYPES:
+    q = "quick" if t in ("bool", "int64", "str") else "thorough"
+    ob("attr.tree.get.%s" % t, "attr/tree.c", ["-DOP_GET", "-DATYPE=xcm_attr_type_" + t], ["C10"], unwind=16, tier=q,
+       desc="xcm_attr_get on a real tree with a worst-case %s getter, any 3-char name, capacity 0..12: never writes past capacity, EOVERFLOW when too small, length exact" % t)
+    ob("attr.tree.set.%s" % t, "attr/tree.c", ["-DOP_SET", "-DATYPE=xcm_attr_type_" + t], ["C10"], unwind=16, tier=q,
+       desc="xcm_attr_set on a real tree (%s attribute): unknown -> ENOENT, read-only -> EACCES, wrong type/length -> EINVAL, no setter called in those cases" % t)
+    for w, wt in enumerate(TYPES):
+        qq = "quick" if (t in ("bool", "int64", "str") and wt in ("bool", "int64", "str")) else "thorough"
+        ob("attr.tree.typed.%s.get_%s" % (t, wt), "attr/tree.c", ["-DOP_TYPED", "-DATYPE=xcm_attr_type_" + t, "-DWHICH=%d" % w] + (["-DMATCH"] if t == wt else []), ["C10"], unwind=16, tier=qq,
+           desc="xcm_attr_get_%s on a %s attribute into an object of exactly the getter's size: no overflow, ENOENT on type mismatch" % (wt, t))
+PROPERTY_META["C10"] = {
+    "assumptions": ["framework half: the real xcm.c/attr_tree.c/attr_node.c/attr_path.c over a 3-node tree with worst-case mock getters (fixed-size getters ignore the capacity, as several real ones do)",
+                    "attr_node.c is compiled with its anonymous union turned into a struct (CBMC 6.11 loses writes through a pointer into a union member; reproducer in DESIGN.md)",
+                    "debug-log value formatting (log_attr_str_value) has an empty body",
+                    "attribute names: all 3-character strings; path-name limits see the C19 attr_path obligations"],
+    "trusted_base": [], "bounds": "names <= 3 chars, capacities 0..12, values 1/8/3 bytes", "outside": "trees deeper than 2 levels; list nodes"}
+
+# --------------------------------------------------------------------------
+# btcp: xcm_tp_btcp.c + tcp_attr.c + dns_attr.c (real), xcm_tp.c linked (attribute helpers)
+# --------------------------------------------------------------------------
+import os as _os, re as _re
+_REPO = _os.environ.get("VERIF_REPO", "/repo")
+
+
+def extract_attrs(relpath):
+    """(getter, setter, type) triples from the ATTR_TREE_ADD_RW/RO call sites of a source file (regenerated from /repo on every run)."""
+    try:
+        txt = open(_os.path.join(_REPO, relpath)).read()
+    except OSError:
+        return []
+    out = []
+    for m in _re.finditer(r"ATTR_TREE_ADD_(RW|RO)\s*\(([^;]*?)\)\s*;", txt, _re.S):
+        args = [a.strip() for a in m.group(2).replace("\n", " ").split(",")]
+        if m.group(1) == "RW" and len(args) == 6:
+            out.append((args[5], args[4], args[3]))
+        elif m.group(1) == "RO" and len(args) == 5:
+            out.append((args[4], None, args[3]))
+    seen, res = set(), []
+    for g in out:
+        if g[0] not in seen:
+            seen.add(g[0])
+            res.append(g)
+    return res
+
+
+GSIZE = {"xcm_attr_type_bool": 1, "xcm_attr_type_int64": 8, "xcm_attr_type_double": 8, "xcm_attr_type_str": 0, "xcm_attr_type_bin": 0}
+BTCP_LINK = ["libxcm/tp/common/xcm_tp.c"]
+BT = {
+    "SEND": (["C02", "C05", "C06", "C17"], "btcp_send from any connection state: exactly one send(fd, buf, len, MSG_NOSIGNAL), result passed through, counters, terminal states stick, errno remembered"),
+    "RECV": (["C02", "C05", "C06", "C17"], "btcp_receive from any connection state: one recv with the caller's buffer, rc <= capacity, EOF -> closed, errors -> bad(errno)"),
+    "FINISH": (["C04", "C05", "C06"], "btcp_finish from any connection state"),
+    "UPDATE": (["C04", "C16"], "btcp_update (connection): epoll mask = map(awaited condition), bell only for terminal states / completed query"),
+    "SERVER_UPDATE": (["C04", "C16"], "btcp_update (server): EPOLLIN on the listen descriptor iff ACCEPTABLE awaited"),
+    "SETOPT": (["C11", "C10"], "tcp.keepalive*/tcp.user_timeout setters from any state with a setsockopt that may fail: kernel options of the live descriptor = f(stored options), rejected value changes nothing, full 64-bit values"),
+    "ESTABLISH": (["C11", "C13", "C06", "C04"], "one try_establish step from resolving/connecting over DNS and TCONNECT contract mocks: options changed during establishment are applied, resolver list passed on, errnos remembered"),
+    "ONCE": (["C11"], "creation-only attributes (dns.*, tcp.connect_timeout, ipv6.scope, xcm.local_addr) in every state: EACCES afterwards, nothing changed"),
+}
+for op, (props, d) in BT.items():
+    ob("btcp." + op.lower(), "btcp/btcp.c", ["-DOP_" + op], props, unwind=20, unwindset=["memcmp.0:50"], link=BTCP_LINK, desc=d)
+for (g, sfn, t) in extract_attrs("libxcm/tp/tcp/xcm_tp_btcp.c"):
+    ob("btcp.getter." + g, "btcp/btcp.c", ["-DOP_GETTER", "-DGETTER=" + g, "-DGSIZE=%d" % GSIZE.get(t, 0)], ["C10"], unwind=30, unwindset=["memcmp.0:50"], link=BTCP_LINK,
+       desc="real getter %s (%s) from any socket state, every capacity the attribute tree can pass: never writes past capacity, length exact" % (g, t))
+_btcp_assumptions = [
+    "btcp over KERNEL-STREAM stubs: send/recv return 1..len, 0 (recv), or -1 with EAGAIN/EPIPE/ECONNRESET/ETIMEDOUT/EHOSTUNREACH/ENETUNREACH/ECONNREFUSED at the solver's choice; setsockopt may fail at every call",
+    "XPOLL, DNS and TCONNECT contract mocks (the TCONNECT contract 'the fd handed over has the snapshot options in force' is what the tconnect obligations assert)",
+    "receive capacity >= 1",
+]
+for p in ("C02", "C06", "C17", "C11", "C04", "C16"):
+    PROPERTY_META.setdefault(p, {"assumptions": [], "trusted_base": []})
+    PROPERTY_META[p].setdefault("assumptions", [])
+    PROPERTY_META[p]["assumptions"] += _btcp_assumptions
